@@ -132,13 +132,6 @@ Qed.
 
 Notation keys l := (map fst l).
 
-(* the FIFO holds exactly the keys of the cache, each once, with the cached timestamp *)
-Record IMInv (im : imgr) : Prop := {
-  imi_nodup_c : NoDup (keys (im_cache im));
-  imi_nodup_f : NoDup (keys (im_fifo im));
-  imi_len : length (im_fifo im) = length (im_cache im);
-  imi_ts : forall i ts, In (i, ts) (im_fifo im) -> exists m, cache_get i (im_cache im) = Some m /\ m_ts m = ts }.
-
 Lemma cache_get_In i l m : cache_get i l = Some m -> In i (keys l).
 Proof.
   induction l as [|[j m'] r IH]; cbn; [discriminate|].
@@ -222,111 +215,235 @@ Proof.
   - destruct (issue_eqb j k); [reflexivity|exact IH].
 Qed.
 
-(* keys of FIFO and cache coincide as sets *)
-Lemma IMInv_keys im : IMInv im -> forall i, In i (keys (im_cache im)) -> In i (keys (im_fifo im)).
+Lemma cache_get_remove_same i l : cache_get i (cache_remove i l) = None.
 Proof.
-  intros [Nc Nf L T].
-  assert (G : incl (keys (im_cache im)) (keys (im_fifo im))).
-  { apply NoDup_length_incl; [exact Nf|rewrite !map_length; lia|].
-    intros i Hi. apply in_map_iff in Hi. destruct Hi as [[j ts] [E Hi]]. cbn in E. subst j.
-    destruct (T i ts Hi) as (m & G & _). eapply cache_get_In; eauto. }
-  exact G.
+  unfold cache_remove. induction l as [|[k m'] r IH]; cbn; [reflexivity|].
+  destruct (issue_eqb i k) eqn:E; cbn; [exact IH|rewrite E; exact IH].
+Qed.
+Lemma cache_get_remove_sub i j l x : cache_get j (cache_remove i l) = Some x -> cache_get j l = Some x.
+Proof.
+  intros H. destruct (issue_eqb i j) eqn:E.
+  - apply issue_eqb_eq in E. subst j. rewrite cache_get_remove_same in H. discriminate.
+  - apply issue_eqb_neq in E. rewrite cache_get_remove_other in H by exact E. exact H.
 Qed.
 
-Lemma pop_front_inv im : IMInv im -> IMInv (fst (pop_front im)) /\ snd (pop_front im) = None /\
-  (length (im_cache (fst (pop_front im))) = pred (length (im_cache im))).
+(** The FIFO with lazy deletion: every entry's issue is cached; the LAST entry of an issue
+    carries the cached timestamp (it is live), every earlier one a smaller timestamp (stale);
+    every cached issue has an entry. *)
+Definition later (i : issue) (l : list (issue * N)) : bool := existsb (fun jt => issue_eqb i (fst jt)) l.
+Fixpoint FI (cache : list (issue * marker)) (fifo : list (issue * N)) : Prop :=
+  match fifo with
+  | [] => True
+  | (i, ts) :: r =>
+    (exists m, cache_get i cache = Some m /\ (if later i r then ts < m_ts m else ts = m_ts m)) /\ FI cache r
+  end.
+Record IMInv (im : imgr) : Prop := {
+  imi_nodup : NoDup (keys (im_cache im));
+  imi_fi : FI (im_cache im) (im_fifo im);
+  imi_cov : forall i, In i (keys (im_cache im)) -> later i (im_fifo im) = true }.
+
+Lemma later_app i l1 l2 : later i (l1 ++ l2) = later i l1 || later i l2.
+Proof. unfold later. apply existsb_app. Qed.
+Lemma later_false i l : later i l = false <-> ~ In i (keys l).
 Proof.
-  intros I. pose proof I as [Nc Nf L T]. unfold pop_front.
-  destruct (im_fifo im) as [|[i ts] fifo'] eqn:Ef.
-  - cbn. split; [exact I|]. split; [reflexivity|]. cbn in L. rewrite <- L. reflexivity.
-  - destruct (T i ts (or_introl eq_refl)) as (m & G & Ets). rewrite G, Ets, N.eqb_refl. cbn.
-    cbn in Nf. inv Nf.
-    assert (Hi : In i (keys (im_cache im))) by (eapply cache_get_In; eauto).
-    pose proof (filter_remove_length i _ Nc Hi) as FL. rewrite <- keys_cache_remove in FL.
-    rewrite !map_length in FL.
-    split; [|split; [reflexivity|lia]].
-    constructor; cbn.
-    + rewrite keys_cache_remove. apply NoDup_filter', Nc.
-    + exact H2.
-    + cbn in L. lia.
-    + intros j tj Hj. destruct (T j tj (or_intror Hj)) as (mj & Gj & Ej).
-      exists mj. split; [|exact Ej]. rewrite cache_get_remove_other; [exact Gj|].
-      intros ->. apply H1. apply in_map_iff. exists (j, tj). split; [reflexivity|exact Hj].
+  induction l as [|[j t] r IH]; cbn; [tauto|].
+  destruct (issue_eqb i j) eqn:E; cbn.
+  - apply issue_eqb_eq in E. subst. split; [discriminate|]. intros H. exfalso. apply H. left. reflexivity.
+  - apply issue_eqb_neq in E. rewrite IH. split; [intros H [G|G]; [congruence|auto]|tauto].
+Qed.
+Lemma later_filter i f l : later i (filter f l) = true -> later i l = true.
+Proof.
+  unfold later. rewrite !existsb_exists. intros (x & A & B). exists x. split; [|exact B].
+  apply filter_In in A. tauto.
 Qed.
 
-Lemma add_issue_inv c im i m :
+Lemma FI_remove i cache r : FI cache r -> later i r = false -> FI (cache_remove i cache) r.
+Proof.
+  induction r as [|[j ts] r IH]; intros F L; [exact I|]. cbn in F, L. destruct F as [(m & G & C) F].
+  apply orb_false_iff in L. destruct L as [L1 L2]. apply issue_eqb_neq in L1.
+  split; [|apply IH; assumption]. exists m. split; [|exact C]. rewrite cache_get_remove_other; assumption.
+Qed.
+
+Definition evict_post (size : N) (cache : list (issue * marker)) (fifo : list (issue * N))
+           (r : imgr * option N) : Prop :=
+  IMInv (fst r) /\ snd r = None /\
+  (N.of_nat (length (im_cache (fst r))) < size \/ im_cache (fst r) = []) /\
+  (length (im_cache (fst r)) <= length cache)%nat /\ (length (im_fifo (fst r)) <= length fifo)%nat /\
+  (forall j x, cache_get j (im_cache (fst r)) = Some x -> cache_get j cache = Some x).
+
+Lemma evict_stop size cache fifo :
+  NoDup (keys cache) -> FI cache fifo -> (forall i, In i (keys cache) -> later i fifo = true) ->
+  (N.of_nat (length cache) < size \/ cache = []) ->
+  evict_post size cache fifo (mkIM cache fifo, None).
+Proof.
+  intros N F C R. unfold evict_post. cbn.
+  refine (conj _ (conj eq_refl (conj R (conj (le_n _) (conj (le_n _) (fun j x H => H)))))).
+  constructor; cbn; assumption.
+Qed.
+
+Lemma evict_inv size : forall fifo cache,
+  NoDup (keys cache) -> FI cache fifo -> (forall i, In i (keys cache) -> later i fifo = true) ->
+  evict_post size cache fifo (evict size cache fifo).
+Proof.
+  induction fifo as [|[i ts] r IH]; intros cache N F C; cbn [evict].
+  - destruct (size <=? N.of_nat (length cache)) eqn:E.
+    + assert (cache = []).
+      { destruct cache as [|[k mk] rest]; [reflexivity|]. specialize (C k (or_introl eq_refl)). discriminate. }
+      subst cache. apply evict_stop; auto.
+    + apply N.leb_gt in E. apply evict_stop; auto.
+  - destruct (size <=? N.of_nat (length cache)) eqn:E.
+    2:{ apply N.leb_gt in E. apply evict_stop; auto. }
+    unfold evict_post.
+    cbn in F. destruct F as [(m & G & Cm) F]. rewrite G.
+    destruct (m_ts m =? ts) eqn:Et.
+    + apply N.eqb_eq in Et.
+      assert (L : later i r = false). { destruct (later i r); [lia|reflexivity]. }
+      assert (Hi : In i (keys cache)) by (eapply cache_get_In; eauto).
+      pose proof (filter_remove_length i _ N Hi) as FL. rewrite <- keys_cache_remove in FL. rewrite !map_length in FL.
+      specialize (IH (cache_remove i cache)). unfold evict_post in IH.
+      destruct IH as (A1 & A2 & A3 & A4 & A5 & A6).
+      * rewrite keys_cache_remove. apply NoDup_filter', N.
+      * apply FI_remove; assumption.
+      * intros j Hj. rewrite keys_cache_remove in Hj. apply filter_In in Hj. destruct Hj as [Hj Hn].
+        apply negb_true_iff in Hn. specialize (C j Hj). cbn in C.
+        assert (issue_eqb j i = false).
+        { destruct (issue_eqb j i) eqn:X; [|reflexivity]. apply issue_eqb_eq in X. subst. rewrite issue_eqb_refl in Hn. discriminate. }
+        rewrite H in C. exact C.
+      * refine (conj A1 (conj A2 (conj A3 (conj _ (conj _ _))))); [lia|cbn; lia|].
+        intros j x Hx. apply (cache_get_remove_sub i). apply A6. exact Hx.
+    + apply N.eqb_neq in Et.
+      assert (L : later i r = true). { destruct (later i r); [reflexivity|]. congruence. }
+      specialize (IH cache N F). unfold evict_post in IH.
+      destruct IH as (A1 & A2 & A3 & A4 & A5 & A6).
+      * intros j Hj. specialize (C j Hj). cbn in C. destruct (issue_eqb j i) eqn:X; [|exact C].
+        apply issue_eqb_eq in X. subst. exact L.
+      * refine (conj A1 (conj A2 (conj A3 (conj A4 (conj _ A6))))). cbn. lia.
+Qed.
+
+Lemma FI_In_cache cache fifo i ts : FI cache fifo -> In (i, ts) fifo -> In i (keys cache).
+Proof.
+  induction fifo as [|[j t] r IH]; intros F H; [destruct H|]. cbn in F. destruct F as [(m & G & _) F].
+  destruct H as [H|H]; [inv H; eapply cache_get_In; eauto|apply IH; assumption].
+Qed.
+
+Lemma filter_live_inv cache fifo :
+  FI cache fifo ->
+  FI cache (filter (live cache) fifo) /\
+  (forall i, later i fifo = true -> later i (filter (live cache) fifo) = true) /\
+  NoDup (keys (filter (live cache) fifo)).
+Proof.
+  induction fifo as [|[i ts] r IH]; intros F; [cbn; repeat split; auto; constructor|].
+  cbn in F. destruct F as [(m & G & Cm) F]. destruct (IH F) as (A & B & D).
+  assert (Hl : live cache (i, ts) = (m_ts m =? ts)) by (unfold live; cbn [fst snd]; rewrite G; reflexivity).
+  cbn [filter]. rewrite Hl.
+  destruct (m_ts m =? ts) eqn:Et.
+  - apply N.eqb_eq in Et.
+    assert (L : later i r = false). { destruct (later i r); [lia|reflexivity]. }
+    assert (L' : later i (filter (live cache) r) = false).
+    { destruct (later i (filter (live cache) r)) eqn:X; [|reflexivity]. apply later_filter in X. congruence. }
+    refine (conj _ (conj _ _)).
+    + split; [|exact A]. exists m. split; [exact G|]. rewrite L'. lia.
+    + intros j Hj. cbn in Hj |- *. destruct (issue_eqb j i); [reflexivity|]. cbn in *. apply B. exact Hj.
+    + cbn. constructor; [apply later_false; exact L'|exact D].
+  - apply N.eqb_neq in Et.
+    assert (L : later i r = true). { destruct (later i r); [reflexivity|]. congruence. }
+    refine (conj A (conj _ D)).
+    intros j Hj. cbn in Hj. destruct (issue_eqb j i) eqn:X; [|apply B; exact Hj].
+    apply issue_eqb_eq in X. subst. apply B. exact L.
+Qed.
+
+Lemma filter_live_length cache fifo :
+  NoDup (keys cache) -> FI cache fifo -> (length (filter (live cache) fifo) <= length cache)%nat.
+Proof.
+  intros N F. destruct (filter_live_inv cache fifo F) as (A & _ & D).
+  rewrite <- (map_length fst (filter _ _)), <- (map_length fst cache).
+  apply NoDup_incl_length; [exact D|].
+  intros i Hi. apply in_map_iff in Hi. destruct Hi as ([j t] & E & Hi). cbn in E. subst j.
+  eapply FI_In_cache; eauto.
+Qed.
+
+(* pushing the entry of a (re-)reported issue whose timestamp is later than the cached one *)
+Lemma FI_push cache fifo i m :
+  FI cache fifo -> (forall ex, cache_get i cache = Some ex -> m_ts ex < m_ts m) ->
+  FI (cache_insert i m cache) (fifo ++ [(i, m_ts m)]).
+Proof.
+  intros F Hts. induction fifo as [|[j ts] r IH].
+  - cbn. split; [|exact I]. exists m. split; [apply cache_get_insert_same|reflexivity].
+  - cbn in F. destruct F as [(mj & G & C) F]. cbn [app FI]. split; [|apply IH; exact F].
+    rewrite later_app. cbn [later existsb fst]. rewrite orb_false_r.
+    destruct (issue_eqb j i) eqn:E.
+    + apply issue_eqb_eq in E. subst j. exists m. split; [apply cache_get_insert_same|].
+      rewrite orb_true_r. specialize (Hts mj G). destruct (later i r); lia.
+    + rewrite orb_false_r. exists mj. split; [|exact C].
+      apply issue_eqb_neq in E. rewrite cache_get_insert_other; [exact G|]. intros ->. congruence.
+Qed.
+
+Lemma add_issue_IMInv c im i m :
+  0 < c_dedup c -> IMInv im ->
+  let r := add_issue c im i m in IMInv (fst (fst r)) /\ snd r = None.
+Proof.
+  intros D Inv. pose proof Inv as [N F C]. unfold add_issue.
+  set (dup := match cache_get i (im_cache im) with
+              | Some ex => m_ts m - m_ts ex <? c_dedup c
+              | None => false
+              end).
+  destruct dup eqn:Edup; [cbn; split; [exact Inv|reflexivity]|].
+  pose proof (evict_inv (c_issue_size c) (im_fifo im) (im_cache im) N F C) as E. unfold evict_post in E.
+  destruct (evict (c_issue_size c) (im_cache im) (im_fifo im)) as [im1 pn]. cbn [fst snd] in E.
+  destruct E as (I1 & Pn & _ & _ & _ & Sub). subst pn. pose proof I1 as [N1 F1 C1]. cbn [fst snd].
+  split; [|reflexivity].
+  assert (Hts : forall ex, cache_get i (im_cache im1) = Some ex -> m_ts ex < m_ts m).
+  { intros ex Hex. apply Sub in Hex. subst dup. rewrite Hex in Edup. apply N.ltb_ge in Edup. lia. }
+  set (fifo2 := if 2 * N.max (c_issue_size c) 1 <=? N.of_nat (length (im_fifo im1))
+                then filter (live (im_cache im1)) (im_fifo im1) else im_fifo im1).
+  assert (P2 : FI (im_cache im1) fifo2 /\ (forall j, later j (im_fifo im1) = true -> later j fifo2 = true)).
+  { subst fifo2. destruct (_ <=? _); [|split; auto]. destruct (filter_live_inv _ _ F1) as (A & B & _). split; assumption. }
+  destruct P2 as [F2 C2].
+  constructor; cbn [im_cache im_fifo].
+  - destruct (cache_get i (im_cache im1)) as [ex|] eqn:G.
+    + rewrite keys_cache_insert_old by (eapply cache_get_In; eauto). exact N1.
+    + rewrite keys_cache_insert_new by (apply cache_get_None; exact G).
+      apply NoDup_snoc; [exact N1|apply cache_get_None; exact G].
+  - apply FI_push; assumption.
+  - intros j Hj. rewrite later_app. cbn [later existsb fst]. rewrite orb_false_r.
+    destruct (issue_eqb j i) eqn:X; [apply orb_true_r|]. rewrite orb_false_r.
+    apply C2, C1. apply issue_eqb_neq in X.
+    destruct (cache_get i (im_cache im1)) as [ex|] eqn:G.
+    + rewrite keys_cache_insert_old in Hj by (eapply cache_get_In; eauto). exact Hj.
+    + rewrite keys_cache_insert_new in Hj by (apply cache_get_None; exact G).
+      apply in_app_or in Hj. destruct Hj as [Hj|[Hj|[]]]; [exact Hj|congruence].
+Qed.
+
+Lemma cache_insert_length i m l : (length (cache_insert i m l) <= S (length l))%nat.
+Proof. induction l as [|[j m'] r IH]; cbn; [lia|]. destruct (issue_eqb i j); cbn; lia. Qed.
+
+Lemma add_issue_bounds c im i m :
   IMInv im ->
+  let M := Nat.max (N.to_nat (c_issue_size c)) 1 in
+  (length (im_cache im) <= M)%nat -> (length (im_fifo im) <= 2 * M)%nat ->
   let r := add_issue c im i m in
-  IMInv (fst (fst r)) /\ snd r = None /\
-  (length (im_cache (fst (fst r))) <= Nat.max (length (im_cache im)) (Nat.max (N.to_nat (c_issue_size c)) 1))%nat.
+  (length (im_cache (fst (fst r))) <= M)%nat /\ (length (im_fifo (fst (fst r))) <= 2 * M)%nat.
 Proof.
-  intros I. pose proof I as [Nc Nf L T]. unfold add_issue.
-  destruct (cache_get i (im_cache im)) as [ex|] eqn:G.
-  - destruct (_ <? c_dedup c).
-    + cbn. split; [exact I|split; [reflexivity|lia]].
-    + cbn.
-      assert (Hi : In i (keys (im_cache im))) by (eapply cache_get_In; eauto).
-      assert (Hf : In i (keys (im_fifo im))) by (apply IMInv_keys; assumption).
-      pose proof (filter_remove_length i _ Nf Hf) as FL. rewrite <- keys_filter_fifo in FL.
-      rewrite !map_length in FL.
-      assert (Lc : length (cache_insert i m (im_cache im)) = length (im_cache im)).
-      { rewrite <- (map_length fst), <- (map_length fst (im_cache im)).
-        change (length (keys (cache_insert i m (im_cache im))) = length (keys (im_cache im))).
-        rewrite keys_cache_insert_old by exact Hi. reflexivity. }
-      split; [|split; [reflexivity|lia]].
-      constructor; cbn.
-      * rewrite keys_cache_insert_old by exact Hi. exact Nc.
-      * rewrite map_app. cbn. apply NoDup_snoc.
-        -- change (NoDup (keys (filter (fun jt => negb (issue_eqb i (fst jt))) (im_fifo im)))).
-           rewrite keys_filter_fifo. apply NoDup_filter', Nf.
-        -- change (~ In i (keys (filter (fun jt => negb (issue_eqb i (fst jt))) (im_fifo im)))).
-           rewrite keys_filter_fifo. apply filter_not_In.
-      * rewrite app_length. cbn. lia.
-      * intros j tj Hj. apply in_app_or in Hj. destruct Hj as [Hj|[Hj|[]]].
-        -- apply filter_In in Hj. destruct Hj as [Hj Hne]. cbn in Hne.
-           apply negb_true_iff, issue_eqb_neq in Hne.
-           destruct (T j tj Hj) as (mj & Gj & Ej). exists mj. split; [|exact Ej].
-           rewrite cache_get_insert_other; assumption.
-        -- inv Hj. exists m. split; [apply cache_get_insert_same|reflexivity].
-  - assert (Hn : ~ In i (keys (im_cache im))) by (apply cache_get_None; exact G).
-    set (im1p := if c_issue_size c <=? N.of_nat (length (im_cache im)) then pop_front im else (im, None)).
-    assert (P : IMInv (fst im1p) /\ snd im1p = None /\
-                (length (im_cache (fst im1p)) <= length (im_cache im))%nat /\
-                (S (length (im_cache (fst im1p))) <= Nat.max (length (im_cache im)) (Nat.max (N.to_nat (c_issue_size c)) 1))%nat /\
-                ~ In i (keys (im_cache (fst im1p)))).
-    { subst im1p. destruct (c_issue_size c <=? N.of_nat (length (im_cache im))) eqn:E.
-      - destruct (pop_front_inv im I) as (A & B & C). split; [exact A|]. split; [exact B|].
-        split; [lia|]. split.
-        + destruct (length (im_cache im)) eqn:El; [|lia]. cbn in C. lia.
-        + (* popping removes keys only *)
-          unfold pop_front. destruct (im_fifo im) as [|[j ts] fifo']; [exact Hn|].
-          destruct (cache_get j (im_cache im)) as [mj|]; [|exact Hn].
-          destruct (m_ts mj =? ts); [|exact Hn]. cbn. rewrite keys_cache_remove.
-          intros H. apply filter_In in H. tauto.
-      - cbn. apply N.leb_gt in E. split; [exact I|]. split; [reflexivity|]. split; [lia|]. split; [lia|exact Hn]. }
-    fold im1p. destruct im1p as [im1 pn]. cbn in P. destruct P as (I1 & Pn & L1 & L2 & Hn1). subst pn.
-    pose proof I1 as [Nc1 Nf1 Ll1 T1]. cbn.
-    assert (Lc : length (cache_insert i m (im_cache im1)) = S (length (im_cache im1))).
-    { rewrite <- (map_length fst), <- (map_length fst (im_cache im1)).
-      change (length (keys (cache_insert i m (im_cache im1))) = S (length (keys (im_cache im1)))).
-      rewrite keys_cache_insert_new by exact Hn1. rewrite app_length. cbn. lia. }
-    split; [|split; [reflexivity|lia]].
-    constructor; cbn.
-    + rewrite keys_cache_insert_new by exact Hn1. apply NoDup_snoc; assumption.
-    + rewrite map_app. cbn. apply NoDup_snoc; [exact Nf1|].
-      intros H. apply Hn1. change (In i (keys (im_fifo im1))) in H.
-      apply in_map_iff in H. destruct H as [[j tj] [E H]]. cbn in E. subst j.
-      destruct (T1 i tj H) as (mj & Gj & _). eapply cache_get_In; eauto.
-    + rewrite app_length. cbn. lia.
-    + intros j tj Hj. apply in_app_or in Hj. destruct Hj as [Hj|[Hj|[]]].
-      * destruct (T1 j tj Hj) as (mj & Gj & Ej). exists mj. split; [|exact Ej].
-        rewrite cache_get_insert_other; [exact Gj|]. intros ->. apply Hn1. eapply cache_get_In; eauto.
-      * inv Hj. exists m. split; [apply cache_get_insert_same|reflexivity].
+  intros Inv M Bc Bf. pose proof Inv as [N F C]. unfold add_issue.
+  destruct (match cache_get i (im_cache im) with
+            | Some ex => m_ts m - m_ts ex <? c_dedup c
+            | None => false
+            end); [cbn; split; assumption|].
+  pose proof (evict_inv (c_issue_size c) (im_fifo im) (im_cache im) N F C) as E. unfold evict_post in E.
+  destruct (evict (c_issue_size c) (im_cache im) (im_fifo im)) as [im1 pn]. cbn [fst snd] in E.
+  destruct E as (I1 & _ & Room & Lc & Lf & _). pose proof I1 as [N1 F1 C1]. cbn [fst snd im_cache im_fifo].
+  pose proof (cache_insert_length i m (im_cache im1)) as Li.
+  split.
+  - destruct Room as [R|R]; [subst M; lia|rewrite R; cbn [cache_insert length]; subst M; lia].
+  - rewrite app_length. cbn [length].
+    destruct (2 * N.max (c_issue_size c) 1 <=? N.of_nat (length (im_fifo im1))) eqn:X.
+    + pose proof (filter_live_length _ _ N1 F1). subst M. lia.
+    + apply N.leb_gt in X. subst M. lia.
 Qed.
 
 Definition ibound (c : cfg) : nat := Nat.max (N.to_nat (c_issue_size c)) 1.
 Definition IMBounded (c : cfg) (s : st) : Prop :=
-  IMInv (s_im s) /\ (length (im_cache (s_im s)) <= ibound c)%nat.
+  IMInv (s_im s) /\ (length (im_cache (s_im s)) <= ibound c)%nat /\ (length (im_fifo (s_im s)) <= 2 * ibound c)%nat.
 
 Lemma fetch_and_update_im c s now a jit : s_im (fetch_and_update pol decay c s now a jit) = s_im s.
 Proof.
@@ -345,30 +462,31 @@ Proof.
   destruct (maybe_update_active decay c now (rank decay now cs2) (s_active s)) as [act pn]. reflexivity.
 Qed.
 
-Lemma step_im c s e : IMBounded c s -> IMBounded c (fst (step pol decay c s e)).
+Lemma step_im c s e : 0 < c_dedup c -> IMBounded c s -> IMBounded c (fst (step pol decay c s e)).
 Proof.
-  intros [I B]. unfold step. destruct (s_dead s); [split; assumption|].
+  intros D B0. pose proof B0 as (I & B & Bf). unfold step. destruct (s_dead s); [exact B0|].
   destruct e as [now a jit|now i|now|now m|now|now]; cbn [fst].
-  - unfold maintain. destruct (_ && _); [split; assumption|].
+  - unfold maintain. destruct (_ && _); [exact B0|].
     destruct (s_next_refetch _ <=? now); cbn [fst].
-    + unfold IMBounded. rewrite fetch_and_update_im. destruct (s_next_idle s <=? now); split; assumption.
-    + destruct (s_next_idle s <=? now); split; assumption.
-  - destruct (target_type i) as [t|]; [|split; assumption].
-    pose proof (add_issue_inv c (s_im s) i (mkMarker t now (penalty i)) I) as A.
-    destruct (add_issue c (s_im s) i _) as [[im bc] pn]. cbn in A. destruct A as (A1 & A2 & A3).
-    split; cbn; [exact A1|]. unfold ibound in *. lia.
-  - destruct (s_chan s); [split; assumption|]. cbn [fst]. unfold IMBounded. rewrite handle_issue_im. split; assumption.
-  - unfold IMBounded. rewrite handle_issue_im. split; assumption.
-  - destruct (hand_out s now); split; assumption.
-  - destruct (s_active s); [destruct (expired_at_handout _ _)|]; split; assumption.
+    + unfold IMBounded. rewrite fetch_and_update_im. destruct (s_next_idle s <=? now); exact B0.
+    + destruct (s_next_idle s <=? now); exact B0.
+  - destruct (target_type i) as [t|]; [|exact B0].
+    pose proof (add_issue_IMInv c (s_im s) i (mkMarker t now (penalty i)) D I) as A.
+    pose proof (add_issue_bounds c (s_im s) i (mkMarker t now (penalty i)) I B Bf) as A'.
+    destruct (add_issue c (s_im s) i _) as [[im bc] pn]. cbn in A, A'. destruct A as (A1 & A2). destruct A' as [A3 A4].
+    split; [exact A1|split; assumption].
+  - destruct (s_chan s); [exact B0|]. cbn [fst]. unfold IMBounded. rewrite handle_issue_im. exact B0.
+  - unfold IMBounded. rewrite handle_issue_im. exact B0.
+  - destruct (hand_out s now); exact B0.
+  - destruct (s_active s); [destruct (expired_at_handout _ _)|]; exact B0.
 Qed.
 
-Lemma run_im c evs : forall s, IMBounded c s -> IMBounded c (run pol decay c s evs).
-Proof. induction evs as [|e r IH]; intros s H; cbn; [exact H|]. apply IH, step_im, H. Qed.
+Lemma run_im c evs : 0 < c_dedup c -> forall s, IMBounded c s -> IMBounded c (run pol decay c s evs).
+Proof. intros D. induction evs as [|e r IH]; intros s H; cbn; [exact H|]. apply IH, step_im; assumption. Qed.
 
 Lemma init_im c t0 : IMBounded c (init_st c t0).
 Proof.
-  split; [constructor; cbn; try constructor; try reflexivity; intros i ts []|cbn; unfold ibound; lia].
+  split; [constructor; cbn; [constructor|exact I|intros i []]|cbn; unfold ibound; lia].
 Qed.
 
 End WithModel.
@@ -616,17 +734,17 @@ Proof.
   - split; [exact A2|]. split; [exact I|]. cbn. rewrite Pn. reflexivity.
 Qed.
 
-Lemma step_NP c s e : NP s -> NP (fst (step pol decay c s e)).
+Lemma step_NP c s e : 0 < c_dedup c -> NP s -> NP (fst (step pol decay c s e)).
 Proof.
-  intros N0. pose proof N0 as (A & I & Pn). unfold step. destruct (s_dead s); [exact N0|].
+  intros D N0. pose proof N0 as (A & I & Pn). unfold step. destruct (s_dead s); [exact N0|].
   destruct e as [now a jit|now i|now|now m|now|now]; cbn [fst].
   - unfold maintain. destruct (_ && _); [split; [apply AIp_None|split; assumption]|].
     destruct (s_next_refetch _ <=? now); cbn [fst].
     + apply fetch_and_update_NP. destruct (s_next_idle s <=? now); exact N0.
     + destruct (s_next_idle s <=? now); exact N0.
   - destruct (target_type i) as [t|]; [|exact N0].
-    pose proof (add_issue_inv c (s_im s) i (mkMarker t now (penalty i)) I) as X.
-    destruct (add_issue c (s_im s) i _) as [[im bc] pn]. cbn in X. destruct X as (X1 & X2 & _). subst pn.
+    pose proof (add_issue_IMInv c (s_im s) i (mkMarker t now (penalty i)) D I) as X.
+    destruct (add_issue c (s_im s) i _) as [[im bc] pn]. cbn in X. destruct X as (X1 & X2). subst pn.
     split; [exact A|]. split; [exact X1|]. cbn. rewrite Pn. reflexivity.
   - destruct (s_chan s); [exact N0|]. apply handle_issue_NP, N0.
   - apply handle_issue_NP, N0.
@@ -634,13 +752,13 @@ Proof.
   - destruct (s_active s); [destruct (expired_at_handout _ _)|]; exact N0.
 Qed.
 
-Lemma run_NP c evs : forall s, NP s -> NP (run pol decay c s evs).
-Proof. induction evs as [|e r IH]; intros s H; cbn; [exact H|]. apply IH, step_NP, H. Qed.
+Lemma run_NP c evs : 0 < c_dedup c -> forall s, NP s -> NP (run pol decay c s evs).
+Proof. intros D. induction evs as [|e r IH]; intros s H; cbn; [exact H|]. apply IH, step_NP; assumption. Qed.
 
 Lemma init_NP c t0 : NP (init_st c t0).
 Proof.
   split; [apply AIp_None|]. split; [|reflexivity].
-  constructor; cbn; try constructor; try reflexivity. intros i ts [].
+  constructor; cbn; [constructor|exact I|intros i []].
 Qed.
 End NoPanic.
 
